@@ -72,6 +72,7 @@ func runWriter(c *Case, res *Result, cfg Config, data []byte, pieces []int, k in
 		opts.ForcePolicy = true
 		opts.FixedPolicy = sim.PolLowest
 	}
+	sim.Heartbeat()
 	s := sim.Run(c.Tape, opts, func(env *sim.Env) {
 		defer func() {
 			if r := recover(); r != nil {
@@ -264,6 +265,7 @@ func C08(c *Case) *Result {
 			opts.ForcePolicy = true
 			opts.FixedPolicy = sim.PolLowest
 		}
+		sim.Heartbeat()
 		s := sim.Run(t, opts, func(env *sim.Env) {
 			defer func() {
 				if r := recover(); r != nil {
